@@ -235,8 +235,18 @@ func TestC20(t *testing.T) {
 				nontrivial = true
 			}
 		}
+		// the values are appended to a buffer that may already hold something,
+		// not necessarily a whole number of words (Buffer.Put of raw bytes, a
+		// caller's own framing): each value's own encoding is 4-byte aligned and
+		// equal to the reference whatever precedes it
+		prefix := pbt.DrawBytes(t, "prefix", rapid.SampledFrom([]int{0, 0, 0, 1, 2, 3, 4, 5, 7}).Draw(t, "prefixLen"))
+		if len(prefix)%4 != 0 {
+			nontrivial = true
+			key = fmt.Sprintf("prefix%d;", len(prefix)) + key
+		}
 		var b bin.Buffer
-		var want []byte
+		b.Put(prefix)
+		want := append([]byte(nil), prefix...)
 		for _, v := range vals {
 			before := b.Len()
 			v.encodeImpl(&b)
@@ -249,7 +259,7 @@ func TestC20(t *testing.T) {
 			}
 		}
 		// decode the concatenation: every value comes back and consumes exactly its length
-		d := bin.Buffer{Buf: append([]byte(nil), b.Buf...)}
+		d := bin.Buffer{Buf: append([]byte(nil), b.Buf[len(prefix):]...)}
 		consumed := 0
 		var refBuf []byte
 		for _, v := range vals {
